@@ -33,7 +33,8 @@ def gen_secret(rng, cls, plain_alpha=False, allow_all_digit_type7=False, reserve
         for _ in range(20):
             w = rng.choice(cand)
             v = rng.choice([w.capitalize(), w.upper(), w[:-1] + w[-1].upper()])
-            if v not in res and v.lower() in res:
+            # must stay in format class "text": at least one letter outside a-f, not '$'-prefixed
+            if v not in res and v.lower() in res and re.search(r"[g-zG-Z]", v):
                 return {"cls": cls, "text": v, "cores": [], "sub": "reserved-case-variant"}
     if cls == "text":
         alpha = _TEXT_ALPHA_PLAIN if plain_alpha else _TEXT_ALPHA
